@@ -151,7 +151,7 @@ def line_case(draw, tier='quick', max_lines=8):
         'delete_plain', 'insert_plain', 'mark_both', 'substring_line',
         'substring_line', 'substring_actual_only', 'dup_line', 'rem_line',
         'long_line', 'blank_tail', 'insert_edge_marked',
-        'edge_marked_pair']), min_size=0, max_size=3))
+        'edge_marked_pair', 'only_rem']), min_size=0, max_size=3))
     if not edits and draw(st.integers(0, 2)) != 0:
         edits = [draw(st.sampled_from(['refill', 'pad', 'swap', 'fchar',
                                        'insert_marked', 'substring_line']))]
@@ -287,6 +287,18 @@ def line_case(draw, tier='quick', max_lines=8):
                 act.insert(draw(st.integers(0, len(act))), line)
             if side in ('ref', 'both'):
                 ref.insert(draw(st.integers(0, len(ref))), line + ' 2')
+            if enable():
+                opts['preprocess'] = 'drop_rem'
+        elif e == 'only_rem':
+            # one side, or both, consists of nothing but lines the
+            # preprocessor drops: its preprocessed form is empty
+            side = draw(st.sampled_from(['act', 'ref', 'both', 'both']))
+            if side in ('act', 'both'):
+                act[:] = ['REM ' + draw(st.sampled_from(F_WORDS))
+                          for _ in range(draw(st.integers(1, 2)))]
+            if side in ('ref', 'both'):
+                ref[:] = ['REM ' + draw(st.sampled_from(F_WORDS)) + ' 2'
+                          for _ in range(draw(st.integers(1, 2)))]
             if enable():
                 opts['preprocess'] = 'drop_rem'
         elif e == 'long_line' and act and ref:
